@@ -29,7 +29,7 @@ func (c16) Assumptions() []string {
 	return []string{"results of failing calls are not constrained (the property speaks of success)", "inputs are sampled (string tokens with every escape kind, raw invalid UTF-8, documents of all classes)"}
 }
 func (c16) Required(tier string) []string {
-	return []string{"D-dirty", "X-overwrite", "dst-grew", "dst-fit-exactly", "escape-with-dirty-dst", "scratch-reused-by-later-call", "failing-call-input-checked", "tree-snapshot-rechecked", "dst-ends-mid-sequence-input-starts-with-continuation", "empty-container-returned-then-reader-reused", "earlier-input-rechecked"}
+	return []string{"D-dirty", "X-overwrite", "dst-grew", "dst-fit-exactly", "escape-with-dirty-dst", "scratch-reused-by-later-call", "failing-call-input-checked", "tree-snapshot-rechecked", "dst-ends-mid-sequence-input-starts-with-continuation", "empty-container-returned-then-reader-reused", "earlier-input-rechecked", "M-guard"}
 }
 
 var dstPrefixLens = []int{0, 1, 5, 37}
@@ -211,6 +211,9 @@ func (c16) Gen(r *Rand, sc *Scenario, tier string) {
 				op.B = r.Range(1, 240)
 			}
 			op.C = r.Intn(2) // overwrite after return
+			if r.Chance(1, 4) {
+				op.C |= 2 // read-only input in front of an inaccessible page
+			}
 			if r.Chance(1, 5) {
 				op.B = 0
 			}
@@ -284,6 +287,14 @@ func (c16) Exec(sc *Scenario, st *Stats) *Violation {
 		}
 		const spare = 24
 		data := d.BytesSpare(spare)
+		guarded := false
+		if op.C&2 != 0 && len(d.Tail) == 0 {
+			// read-only input that ends at a page boundary in front of an inaccessible page
+			if g, ok := theGuardRing.place(d.Bytes()); ok {
+				data, guarded = g, true
+				st.fault("M-guard")
+			}
+		}
 		snapIn := append([]byte(nil), data[:cap(data)]...)
 		st.ev(op.Kind)
 		st.ev(d.Class)
@@ -328,6 +339,9 @@ func (c16) Exec(sc *Scenario, st *Stats) *Violation {
 		}
 		out := runAPI(op.Kind, x, data)
 		if out.Panic != "" {
+			if fault, inside := faultIn(out.Panic, data); guarded && fault && inside {
+				return viol("input-modified", "the call wrote into its (read-only mapped) input, even if only temporarily: "+clip(out.Panic, 120))
+			}
 			// totality belongs to C10; but the input must be intact even so
 			if !bytes.Equal(snapIn, data[:cap(data)]) {
 				return viol("input-modified", "input bytes changed during a call that panicked")
@@ -402,7 +416,12 @@ func (c16) Exec(sc *Scenario, st *Stats) *Violation {
 		}
 		// the input stays alive; a later call (sharing a scratch buffer or a reader with this one) must not write to it either
 		ki := keptInput{data: data, snap: snapIn, where: fmt.Sprintf("op %d %s", oi, op.Kind)}
-		if op.C == 1 {
+		if guarded {
+			// the arena will be reused for a later input (that is a "later change to the input", which
+			// returned values must survive); the bytes themselves are read-only, nothing to re-check
+			ki = keptInput{where: ki.where}
+		}
+		if op.C&1 == 1 && !guarded {
 			st.fault("X-overwrite")
 			poison(data, 0x3F)
 			ki.snap = append([]byte(nil), data[:cap(data)]...)
